@@ -51,7 +51,7 @@ def handleJws (o : Op) : String :=
       let ms := headerMembers alg p kid nonce url
       let head := s!"ok alg={str alg} jwk={flag (hasMember ms "jwk")} kid={flag (hasMember ms "kid")} prot={toHex hj} payload={toHex payload}"
       match sg with
-      | .script _ => s!"{head} digest={toHex digest} sig={toHex sig}"
+      | .script _ => s!"{head} digest={toHex digest} sig={toHex sig} out={toHex (jwsJSON (b64Enc hj) payload sig)}"
       | .real =>
         let n := match p with | .rsa n _ => byteLen n | .ec c _ _ => 2 * sigSize c
         s!"{head} verify=1 siglen={n}"
@@ -82,6 +82,24 @@ def handleEab (o : Op) : String :=
     if !(printable kid && printable url) then "bad-op" else showMac (eab p url kid key)
   | _, _, _, _ => "bad-op"
 
+def script? (s : String) : Option SigScript :=
+  match sig? s with
+  | some (.script x) => some x
+  | _ => none
+
+/-- `roll old= new= kid= nonce= url= sigi= sigo=`: the body POSTed to keyChange by AccountKeyRollover -/
+def handleRoll (o : Op) : String :=
+  match (o.get? "old").bind pub?, (o.get? "new").bind pub?, o.hex? "kid", o.hex? "nonce", o.hex? "url",
+        (o.get? "sigi").bind script?, (o.get? "sigo").bind script? with
+  | some old, some new, some kid, some nonce, some url, some si, some so =>
+    if !(printable kid && printable nonce && printable url) || kid.isEmpty || nonce.isEmpty then "bad-op" else
+    match rollover old new kid nonce url si so with
+    | none => "err"
+    | some body =>
+      -- the panic of jwsSign (over-wide r) is not scripted for this op
+      s!"ok body={toHex body}"
+  | _, _, _, _, _, _, _ => "bad-op"
+
 def handleB64 (o : Op) : String :=
   match o.hex? "data" with
   | some d =>
@@ -98,6 +116,7 @@ def handle (line : String) : String :=
   else if o.cmd == "mac" then handleMac o
   else if o.cmd == "eab" then handleEab o
   else if o.cmd == "b64" then handleB64 o
+  else if o.cmd == "roll" then handleRoll o
   else "bad-op"
 
 end XC.C49
